@@ -129,9 +129,10 @@ def run(chk):
             for k in ("temperature models", "composition models", "grains models", "velocity models"):
                 sg.pop(k, None)
         m = None
-        for _ in range(60):
+        pair = wi % 5 == 4       # two different mass conserving models evaluated for the same trench points, one after the other
+        for _ in range(200):
             m = g.slab_temp_model("subducting plate", True)
-            if m["model"] in ("mass conserving", "plate model"):
+            if m["model"] == "mass conserving" or (m["model"] == "plate model" and not pair):
                 break
         m.pop("operation", None)
         if m["model"] == "mass conserving":
@@ -156,11 +157,32 @@ def run(chk):
                     sg["top truncation"] = [-float(round(rng.uniform(5e4, 1.5e5)))]
         f["temperature models"] = [m]
         f["composition models"] = [{"model": "uniform", "compositions": [0]}]
+        slot2, m2, wj2 = None, None, None
+        if pair and m["model"] == "mass conserving":
+            import copy as _copy
+            m2 = _copy.deepcopy(m)
+            rc_ = m["ridge coordinates"][0]
+            near = rng.choice([2e4, 1.5e5, 3e5])          # a ridge next to the trench: a very young plate
+            m2["ridge coordinates"] = [[[float(round(a[0] - nx * near - dx)), float(round(a[1] - ny * near - dy))],
+                                        [float(round(b[0] - nx * near + dx)), float(round(b[1] - ny * near + dy))]]]
+            m2["reference model name"] = "plate model" if m.get("reference model name", "half space model") == "half space model" else "half space model"
+            if (wi // 5) % 2 == 0:
+                # the same slab in a second world of the process
+                wj2 = _copy.deepcopy(wj)
+                wj2["features"][-1]["temperature models"] = [m2]
+            else:
+                # one slab whose second section has its own model: both are evaluated for every point between the coordinates
+                f["sections"] = [{"coordinate": len(f["coordinates"]) - 1, "segments": _copy.deepcopy(f["segments"]), "temperature models": [m2]}]
         slot = cs.add_world(wj)          # modelled: SlabMass.v / SlabFeature.v, compared bit for bit
+        if wj2 is not None:
+            slot2 = cs.add_world(wj2)
         for qi in range(30):
             q, d = line_query(rng, wj, False, f, spread=rng.choice([0.2, 0.5]))
             if d >= 0:
                 slab_plan.append((cs.p3(slot, q, d, [[1, 0, 0], [4, 0, 0]]), wj, m, d))
+                if slot2 is not None:
+                    slab_plan.append((cs.p3(slot2, q, d, [[1, 0, 0], [4, 0, 0]]), wj2, m2, d))
+                    slab_plan.append((cs.p3(slot, q, d, [[1, 0, 0], [4, 0, 0]]), wj, m, d))
         # a vertical profile through the top of the slab in 1.5 km steps (the cold core sits just above / below it)
         a, b = f["coordinates"][0], f["coordinates"][-1]
         dx, dy = b[0] - a[0], b[1] - a[1]
